@@ -41,57 +41,53 @@ def parse_dot(path, parse_states=False):
 
 
 def edge_cover(edges, init, max_len=12, limit=None):
-    """Greedy cover: walks from the initial state that together traverse every edge at least once.
-    Returns list of walks, each a list of (action, params)."""
+    """Cover: walks from the initial state that together traverse every edge at least once.
+    Linear time: shortest path (BFS tree) to the source of an uncovered edge, then greedily along
+    uncovered edges.  Returns list of walks, each a list of (action, params)."""
     out = collections.defaultdict(list)
     for i, (s, t, a, p) in enumerate(edges):
         out[s].append(i)
-    uncovered = set(range(len(edges)))
-    walks = []
-    # distance-to-uncovered search
-    def nearest(src):
-        # BFS over states to find a shortest path (list of edge indexes) ending with an uncovered edge
-        prev = {src: None}
-        dq = collections.deque([src])
-        while dq:
-            s = dq.popleft()
-            for i in out.get(s, ()):
-                if i in uncovered:
-                    path = [i]
-                    while prev[s] is not None:
-                        pi = prev[s]
-                        path.append(pi)
-                        s = edges[pi][0]
-                    return path[::-1]
-            for i in out.get(s, ()):
-                t = edges[i][1]
-                if t not in prev:
-                    prev[t] = i
-                    dq.append(t)
-        return None
     start = init[0]
-    while uncovered:
-        cur = start
-        walk = []
+    parent = {start: None}
+    dq = collections.deque([start])
+    while dq:
+        s = dq.popleft()
+        for i in out.get(s, ()):
+            t = edges[i][1]
+            if t not in parent:
+                parent[t] = i
+                dq.append(t)
+
+    def path_to(s):
+        path = []
+        while parent[s] is not None:
+            i = parent[s]
+            path.append(i)
+            s = edges[i][0]
+        return path[::-1]
+
+    covered = [False] * len(edges)
+    nxt = {s: 0 for s in out}           # per state: index of the next out-edge to try
+    walks = []
+    for e0 in range(len(edges)):
+        if covered[e0] or edges[e0][0] not in parent:
+            continue
+        walk = path_to(edges[e0][0]) + [e0]
+        for i in walk:
+            covered[i] = True
+        cur = edges[e0][1]
         while len(walk) < max_len:
-            nxt = [i for i in out.get(cur, ()) if i in uncovered]
-            if nxt:
-                path = [nxt[0]]
-            else:
-                path = nearest(cur)
-                if path is None or len(walk) + len(path) > max_len and walk:
-                    break
-            for i in path:
-                uncovered.discard(i)
-                walk.append(i)
-                cur = edges[i][1]
-        if not walk:
-            path = nearest(start)
-            if path is None:
+            lst = out.get(cur, ())
+            k = nxt.get(cur, 0)
+            while k < len(lst) and covered[lst[k]]:
+                k += 1
+            nxt[cur] = k
+            if k >= len(lst):
                 break
-            for i in path:
-                uncovered.discard(i)
-            walk = path
+            i = lst[k]
+            covered[i] = True
+            walk.append(i)
+            cur = edges[i][1]
         walks.append([(edges[i][2], edges[i][3]) for i in walk])
         if limit and len(walks) >= limit:
             break
